@@ -528,8 +528,9 @@ def _idoms(n, entry, succ, pred):
 # ----------------------------------------------------------------------------------------
 
 class Facts:
-    def __init__(self, facts_dir, crates=None, need_bodies=True):
-        """crates: iterable of crate names (underscored) to load, None = all."""
+    def __init__(self, facts_dir, crates=None, need_bodies=True, adts_only=()):
+        """crates: iterable of crate names (underscored) to load, None = all.
+        adts_only: crates of which only the type/impl facts are loaded (no function bodies)."""
         self.dir = facts_dir
         self.fns = {}
         self.adts = {}
@@ -539,13 +540,16 @@ class Facts:
         files = sorted(glob.glob(os.path.join(facts_dir, "*.jsonl")),
                        key=lambda f: -os.path.getsize(f))
         want = set(crates) if crates is not None else None
+        adts_only = set(adts_only)
         for f in files:
             crate = os.path.basename(f).rsplit("-", 1)[0]
-            if want is not None and crate not in want:
+            if want is not None and crate not in want and crate not in adts_only:
                 continue
+            skip_fns = crate in adts_only and (want is None or crate not in want)
             with open(f) as fh:
                 for line in fh:
-                    k = line[6:9]
+                    if skip_fns and line.startswith('{"k":"fn"'):
+                        continue
                     d = json.loads(line)
                     kind = d["k"]
                     if kind == "fn":
